@@ -103,3 +103,38 @@ Lemma pass1_types_witness :
   types_after_first_pass order_a = Some [VCompTrue; VInitialised] /\
   types_after_first_pass order_b = Some [VCompVarBased; VInitialised].
 Proof. split; vm_compute; reflexivity. Qed.
+
+Definition classification_of (s : system) : option (mtype * list (nat * role)) :=
+  match analyse s with Done r => Some (classification s r) | _ => None end.
+
+(** 6. Requalification in one sweep.  x (initial guess), b, c;  c = b + 1001;  b = x + 1002;  x*x = 1003.
+    In this order c stays a computed constant although b (which it reads) becomes algebraic; with b's equation
+    listed first c is algebraic. *)
+Definition requal_a : system :=
+  [mkComp [mkVar 0 0 IConst; mkVar 1 1 INone; mkVar 2 2 INone]
+          [mkEqn 1001 (EVar 2) (EOp (EVar 1) ECn); mkEqn 1002 (EVar 1) (EOp (EVar 0) ECn); mkEqn 1003 (EOp (EVar 0) (EVar 0)) ECn]].
+Definition requal_b : system :=
+  [mkComp [mkVar 0 0 IConst; mkVar 1 1 INone; mkVar 2 2 INone]
+          [mkEqn 1002 (EVar 1) (EOp (EVar 0) ECn); mkEqn 1001 (EVar 2) (EOp (EVar 1) ECn); mkEqn 1003 (EOp (EVar 0) (EVar 0)) ECn]].
+Lemma requal_witness :
+  same_system_reordered requal_a requal_b /\
+  classification_of requal_a = Some (MNla, [(2, RoCompConst); (1, RoAlgebraic); (0, RoAlgebraic)]) /\
+  classification_of requal_b = Some (MNla, [(1, RoAlgebraic); (0, RoAlgebraic); (2, RoAlgebraic)]).
+Proof.
+  split; [|split; vm_compute; reflexivity].
+  constructor; [|constructor]. split; [reflexivity|]. apply perm_swap.
+Qed.
+
+(** 7. Two equivalent variables in one component (x ~ z ~ y with z in another component), equation x = 1001.
+    With x listed before y the model is ALGEBRAIC; with y first the equation is typed NLA and the model is NLA:
+    the variables of a component merely re-ordered. *)
+Definition twin_a : system := [mkComp [mkVar 0 0 INone; mkVar 1 0 INone] [mkEqn 1001 (EVar 0) ECn]; mkComp [mkVar 2 0 INone] []].
+Definition twin_b : system := [mkComp [mkVar 1 0 INone; mkVar 0 0 INone] [mkEqn 1001 (EVar 0) ECn]; mkComp [mkVar 2 0 INone] []].
+Lemma twin_witness :
+  Forall2 (fun c c' => Permutation (c_vars c) (c_vars c') /\ c_eqs c = c_eqs c') twin_a twin_b /\
+  classification_of twin_a = Some (MAlgebraic, [(0, RoCompConst)]) /\
+  classification_of twin_b = Some (MNla, [(0, RoCompConst)]).
+Proof.
+  split; [|split; vm_compute; reflexivity].
+  constructor; [split; [apply perm_swap|reflexivity]|]. constructor; [split; [apply Permutation_refl|reflexivity]|constructor].
+Qed.
